@@ -514,7 +514,7 @@ def b_int(eng, v=0, base=10):
         return v.sym_unop(eng, "int")
     try:
         return int(v, base) if isinstance(v, str) else int(v)
-    except (ValueError, TypeError) as e:
+    except (ValueError, TypeError, OverflowError) as e:
         raise _exc(eng, type(e).__name__, str(e))
 
 
